@@ -125,6 +125,7 @@ type hstate struct {
 	expired  []bool
 	down     bool
 	ep       []int    // current endpoint id per peer as far as the harness moved it
+	refInit  [][]byte // the remote's most recent handshake initiation per peer (consumed by the device)
 	routable [][]byte // packets sent so far (for duplicates)
 }
 
@@ -199,7 +200,7 @@ func run(sc *Scenario, src func(i int, h *hstate) *Ev) {
 	}
 	defer closeWorld(w)
 	start := time.Now()
-	h := &hstate{sc: sc, w: w, peers: peers, lastInit: make([][]byte, sc.NPeers), cur: make([]*ref.Session, sc.NPeers), expired: make([]bool, sc.NPeers), ep: append([]int{}, sc.Eps...)}
+	h := &hstate{sc: sc, w: w, peers: peers, lastInit: make([][]byte, sc.NPeers), cur: make([]*ref.Session, sc.NPeers), expired: make([]bool, sc.NPeers), ep: append([]int{}, sc.Eps...), refInit: make([][]byte, sc.NPeers)}
 	for i := 0; ; i++ {
 		e := src(i, h)
 		if e == nil {
@@ -213,7 +214,7 @@ func run(sc *Scenario, src func(i int, h *hstate) *Ev) {
 			sent = append(sent, o.Sent...)
 			settled = settled && o.Settled
 		}
-		if h.down && (ev.Kind == "refhs" || ev.Kind == "anshs" || ev.Kind == "roam") {
+		if h.down && (ev.Kind == "refhs" || ev.Kind == "anshs" || ev.Kind == "roam" || ev.Kind == "replayinit") {
 			continue // the bind is closed: nothing can arrive
 		}
 		switch ev.Kind {
@@ -262,8 +263,11 @@ func run(sc *Scenario, src func(i int, h *hstate) *Ev) {
 			p := peers[ev.Peer]
 			from := epAddr(ev.Ep)
 			w.Dev.VerifShiftHandshakeTimes(cosim.NoisePK(p.Pub), time.Second)
-			_, out, s, err := w.RefInitiates(p, from, ref.Tai64n(time.Now()))
+			ist, out, s, err := w.RefInitiates(p, from, ref.Tai64n(time.Now()))
 			take(out)
+			if ist != nil {
+				h.refInit[ev.Peer] = ist.Msg
+			}
 			if err != nil {
 				sc.Discarded = fmt.Sprintf("event %d: handshake: %v", i, err)
 				return
@@ -294,6 +298,14 @@ func run(sc *Scenario, src func(i int, h *hstate) *Ev) {
 			h.ep[ev.Peer] = ev.Ep
 			ev.Ridx = s.LocalIdx
 			take(out)
+		case "replayinit":
+			// a byte-identical copy of the remote's latest initiation, from another address, later than
+			// HandshakeInitationRate (20 ms) after the original: must be dropped as a replay
+			if h.refInit[ev.Peer] == nil {
+				continue
+			}
+			time.Sleep(25 * time.Millisecond)
+			take(w.Inject(epAddr(ev.Ep), h.refInit[ev.Peer]))
 		case "roam":
 			if h.cur[ev.Peer] == nil || h.expired[ev.Peer] {
 				continue
@@ -534,8 +546,10 @@ func (g *gen) next(i int, h *hstate) *Ev {
 			ep = 20 + p
 		}
 		return &Ev{Kind: "anshs", Peer: p, Ep: ep}
-	case x < 92:
+	case x < 90:
 		return &Ev{Kind: "roam", Peer: p, Ep: 30 + p}
+	case x < 92:
+		return &Ev{Kind: "replayinit", Peer: p, Ep: 40 + p}
 	case x < 97:
 		return &Ev{Kind: "shifths", Peer: p}
 	default:
@@ -655,6 +669,17 @@ func directed() []*Scenario {
 		{Kind: "anshs", Peer: 1, Ep: 2},
 	}
 	out = append(out, sc4)
+	// replay of the remote's LATEST initiation from another address: dropped, the endpoint stays, traffic keeps going to the peer
+	sc8 := &Scenario{Kind: "scenario", Gen: "directed-replayed-initiation", NPeers: 2, Table: tbl, MTU: 1420, TunBatch: 4, Eps: []int{1, 2}}
+	sc8.Evs = []Ev{{Kind: "refhs", Peer: 0, Ep: 1}, {Kind: "refhs", Peer: 1, Ep: 2},
+		{Kind: "tun", Pkts: [][]byte{v4to([4]byte{10, 1, 9, 1}, 60, 1), v4to([4]byte{10, 1, 2, 1}, 61, 2)}},
+		{Kind: "replayinit", Peer: 0, Ep: 41},
+		{Kind: "tun", Pkts: [][]byte{v4to([4]byte{10, 1, 9, 2}, 62, 3), v4to([4]byte{10, 1, 2, 2}, 63, 4)}},
+		{Kind: "refhs", Peer: 0, Ep: 11}, // an honest new handshake from another address does move it
+		{Kind: "replayinit", Peer: 0, Ep: 42}, {Kind: "replayinit", Peer: 1, Ep: 43},
+		{Kind: "tun", Pkts: [][]byte{v4to([4]byte{10, 1, 9, 3}, 64, 5), v4to([4]byte{10, 1, 2, 3}, 65, 6)}},
+	}
+	out = append(out, sc8)
 	// bind.Send errors: what the bind did not transmit is never transmitted, nothing goes out twice, and
 	// unroutable plaintext read into recycled buffers never reaches the wire
 	sc6 := &Scenario{Kind: "scenario", Gen: "directed-send-errors", NPeers: 2, Table: tbl, MTU: 1420, TunBatch: 4, Eps: []int{1, 2}}
@@ -847,6 +872,8 @@ func gallina(sc *Scenario) string {
 			fmt.Fprintf(&b, "RAns %d %d %d", ev.Peer, ev.Ridx, ev.Ep)
 		case "roam":
 			fmt.Fprintf(&b, "RRoam %d %d", ev.Peer, ev.Ep)
+		case "replayinit":
+			fmt.Fprintf(&b, "RReplayInit %d %d", ev.Peer, ev.Ep)
 		case "shifths":
 			fmt.Fprintf(&b, "RShift %d", ev.Peer)
 		case "expire":
